@@ -29,7 +29,7 @@ CLAIMED = {
          "Trusts: Python's operator dispatch rules; int/float arithmetic of the boxed values.",
          "DESIGN.md section 3, C11"),
  "C04": ("schema-instance recogniser: each merge loop is matched against the proven two-finger schema with the operator's truth table (branches, advance sets, emission table, emitted slots/mask, tails) + effect summary for operand purity",
-         "The two-finger schema M(op) is proven correct on paper (loop invariant in sa/rules/c04.py); the check decides, from the current source, that each of &, |, ^, - is an instance of M(op): three-way split on the two heads, per-branch advance discipline (incl. the arity-dependent succ_next table), emission exactly where the truth table says, present side's own payload / fresh unregistered default of the absent side / correct mask, tails draining the right side, operands not written; the ANY-padded projection of the shorter-arity operand has, symbolically, exactly the longer operand's arity. Holds for all operand pairs. Not decided: tuple un-nesting of n-ary forms, leader-follower lookups.",
+         "The two-finger schema M(op) is proven correct on paper (loop invariant in sa/rules/c04.py); the check decides, from the current source, that each of &, |, ^, - is an instance of M(op): three-way split on the two heads, per-branch advance discipline (incl. the arity-dependent succ_next table), emission exactly where the truth table says, present side's own payload / fresh unregistered default of the absent side / correct mask, tails draining the right side, operands not written; the ANY-padded projection of the shorter-arity operand has, symbolically, exactly the longer operand's arity and is reached only when both heads are present (an empty operand yields nothing instead of being re-projected). Rules read the operator bodies after inline expansion of private helpers and case-wise (a tail loop merged into the main loop is read under 'other side exhausted / present'). Holds for all operand pairs. Not decided: tuple un-nesting of n-ary forms, leader-follower lookups.",
          "Trusts: operand streams strictly increasing (C01 + asserted precondition); default iteration delivers non-empty elements (C12.R1).",
          "DESIGN.md section 3, C04"),
  "C05": ("syntax-directed path check of the populate generator (one yield per iteration, def-use of the offered reference, removal pairing, counter bookkeeping) + effect summary for source purity",
@@ -57,7 +57,7 @@ CLAIMED = {
          "Trusts: the requirement table written from the property text (sa/rules/c14.py).",
          "DESIGN.md section 3, C14"),
  "C15": ("intraprocedural taint analysis with metrics-only-parameter summaries (non-interference), dominating-guard check of asserting Metrics calls, counter-placement table, mutated-vs-reset attribute set comparison, tick pairing in the generators, effect summaries for confinement",
-         "Termination-insensitive non-interference of metrics code with kernel results: values derived from Metrics.* never reach yields/returns/tree writes/kernel control flow in any function of core/; every asserting Metrics call is dominated by a collecting guard; payload operators count exactly the table; beginCollect resets every attribute any Metrics method mutates; metrics.py is confined to Metrics.* and files; one incIter and one iter-trace row per yield in the ticking generators. Sufficient for 'results with collection on = off' for all kernels; equality of the reported numbers with an executed kernel is NOT decided.",
+         "Termination-insensitive non-interference of metrics code with kernel results: values derived from Metrics.* never reach yields/returns/tree writes/kernel control flow in any function of core/; every asserting Metrics call is dominated by a collecting guard; payload operators count exactly the table; beginCollect resets every attribute any Metrics method mutates; metrics.py is confined to Metrics.* and files; one incIter and one iter-trace row per yield in the ticking generators; every library call of a function with a collecting-only assertion on a parameter (Fiber.project: rank_id) supplies that parameter, so no kernel path raises only while collecting. Sufficient for 'results with collection on = off' for all kernels; equality of the reported numbers with an executed kernel is NOT decided.",
          "Trusts: Fiber._saved_* statistics do not influence results; asserts of the metrics API may abort a collecting run.",
          "DESIGN.md section 3, C15"),
  "C16": ("symbolic list-length normal form (header vs row arity), flush-discipline clause checks on the CFG, index-domain recogniser (position / relative position / ordinal of a default-skipping stream / destination-side) at every Metrics.addUse call site",
@@ -81,7 +81,7 @@ CLAIMED = {
          "Trusts: nothing about the numbers.",
          "DESIGN.md section 3, C19"),
  "C20": ("sibling cross-check of the encodeFiber implementations registered for U/C/B, registry/interface exhaustiveness against the base class placeholders, shared key constructor",
-         "THIN: decode round trips and lookups are NOT decided. Decided: encodeFiber of C and B returns a per-element counter (the occupancy the rank above accumulates into segment ends); getSize of U/C/B sums exactly the word counts of the layout (ceiling-division idiom for mask words); every encodeFiber of U, C, B (and Codec.encode) forwards the imposed shape to the next rank; the registry maps U, C, B to classes overriding the placeholder methods the slice API calls; producers and the output dictionary share Codec.get_keys.",
+         "THIN: decode round trips and lookups are NOT decided. Decided: encodeFiber of C and B returns a per-element counter (the occupancy the rank above accumulates into segment ends); getSize of U/C/B sums exactly the word counts of the layout (ceiling-division idiom for mask words); every encodeFiber of U, C, B (and Codec.encode) forwards the imposed shape to the next rank; the registry maps U, C, B to classes overriding the placeholder methods the slice API calls; producers and the output dictionary share Codec.get_keys; every attribute a codec / format method reads through self has a writer that can have run before (constructor chain actually called, another method, or a store through another name).",
          "Trusts: nothing about the encoded arrays.",
          "DESIGN.md section 3, C20"),
 }
